@@ -41,6 +41,10 @@ SliceStarts == {IntV(-7), IntV(-3), IntV(-1), IntV(0), IntV(1), IntV(2), IntV(5)
 SliceLens == {IntV(-1), IntV(0), IntV(1), IntV(2), IntV(9)}
 Sliceable == {Str(""), Str("a"), Str("hello"), Arr(<<>>), Arr(<<IntV(2), IntV(3), IntV(7)>>), Arr(<<Str("a")>>)}
 SizeOf(v) == IF v.t = "str" THEN Len(v.v) ELSE Len(v.v)
+\* floats written with a few digits: 0.5 2.5 -7.5 0.1 0.3 1.25 3.0 20.0 -0.25 2.675
+Decs == {Dec(5, 1), Dec(25, 1), Dec(-75, 1), Dec(1, 1), Dec(3, 1), Dec(125, 2), Dec(30, 1), Dec(200, 1), Dec(-25, 2), Dec(2675, 3)}
+NumStrsD == {Str("1.5"), Str(" 2.50 "), Str("-0.25")}
+NumEq(x, y) == ~IsErr(x) /\ ~IsErr(y) /\ DEq(DecOf(x), DecOf(y))
 Nested == {Arr(<<IntV(2), Arr(<<IntV(3), Arr(<<IntV(7)>>)>>)>>), Arr(<<Arr(<<>>), IntV(2)>>)}
 
 Ap(n, l, args) == Apply(n, l, args, CfgD)
@@ -189,7 +193,34 @@ LawDefault == \A v \in Ints \cup Strs \cup {Nil, Bool(FALSE), Bool(TRUE), Arr(<<
              LET d == Ap("default", v, <<Str("D")>>) IN
              d = (IF v.t = "int" THEN v ELSE IF ~Truthy(v) \/ IsEmptyVal(v) THEN Str("D") ELSE v)
 
-Laws == /\ LawSort /\ LawReverse /\ LawUniq /\ LawCompact /\ LawConcat /\ LawFlatten /\ LawPartition /\ LawFind
+LawDecimal == \A a \in Decs \cup IntsPlain, b \in Decs \cup IntsPlain :
+             (Floaty(a) \/ Floaty(b)) =>
+               /\ NumEq(Ap("minus", Ap("plus", a, <<b>>), <<b>>), a)
+               /\ Ap("plus", a, <<b>>) = Ap("plus", b, <<a>>) /\ Ap("times", a, <<b>>) = Ap("times", b, <<a>>)
+               /\ Ap("plus", a, <<b>>).t = "dec" /\ Ap("times", a, <<b>>).t = "dec"        \* a float operand gives a float
+               /\ (DecOf(b).dm > 0 =>
+                     LET m == Ap("modulo", a, <<b>>) IN
+                     /\ Ok(m) /\ ~DLt(DecOf(m), Dec(0, 0)) /\ DLt(DecOf(m), DecOf(b))
+                     /\ \E q \in -200..200 : DEq(DPlus(DTimes(DecOf(b), Dec(q, 0)), DecOf(m)), DecOf(a)))
+\* writing an integer as a float (7 and 7.0) changes the type of the result, never its value
+LawRepresentation == \A n \in IntsPlain, b \in Decs \cup IntsPlain :
+             LET f == Dec(n.n * 10, 1) IN
+             /\ \A op \in {"plus", "minus", "times", "at_least", "at_most"} : NumEq(Ap(op, n, <<b>>), Ap(op, f, <<b>>))
+             /\ (DecOf(b).dm > 0 => NumEq(Ap("modulo", n, <<b>>), Ap("modulo", f, <<b>>)))
+             /\ \A op \in {"abs", "ceil", "floor", "round"} : NumEq(Ap(op, n, <<>>), Ap(op, f, <<>>))
+LawRounding == \A a \in Decs :
+             LET fl == Ap("floor", a, <<>>)
+                 ce == Ap("ceil", a, <<>>)
+                 ro == Ap("round", a, <<>>) IN
+             /\ fl.t = "int" /\ ce.t = "int"
+             /\ ~DLt(a, Dec(fl.n, 0)) /\ DLt(a, Dec(fl.n + 1, 0))
+             /\ ~DLt(Dec(ce.n, 0), a) /\ DLt(Dec(ce.n - 1, 0), a)
+             /\ (Ok(ro) => ro.t = "int" /\ ro.n \in {fl.n, ce.n}
+                           /\ DLt(DMinus(a, Dec(ro.n, 0)), Dec(5, 1)) /\ DLt(DMinus(Dec(ro.n, 0), a), Dec(5, 1)))
+             /\ \A k \in {1, 2} : LET r == Ap("round", a, <<IntV(k)>>) IN
+                   Ok(r) => r.t = "dec" /\ NormDec(r).de <= k /\ ~DLt(Dec(5, k + 1), DMinus(a, r)) /\ ~DLt(Dec(5, k + 1), DMinus(r, a))
+
+Laws == /\ LawDecimal /\ LawRepresentation /\ LawRounding /\ LawSort /\ LawReverse /\ LawUniq /\ LawCompact /\ LawConcat /\ LawFlatten /\ LawPartition /\ LawFind
         /\ LawKeyLambda /\ LawMap /\ LawSplitJoin /\ LawStrip /\ LawAppend /\ LawTruncate /\ LawArith
         /\ LawNumericStrings /\ LawDefault /\ LawConcatNested /\ LawUniqDeep /\ LawSlice /\ LawReplaceLast /\ LawTruncateWords
         /\ LawSortNatural /\ LawSortNumeric /\ LawUrl /\ LawEscapeOnce
@@ -215,6 +246,8 @@ Apps ==
   \cup A2({"truncatewords"}, WordStrs, {IntV(1), IntV(2), IntV(3)}, {Str("~"), Str("")})
   \cup A0({"sort_natural", "sort"}, MixStrs) \cup A0({"sort_numeric"}, NumStrs \cup IntArrs)
   \cup A0({"url_encode", "url_decode", "escape_once", "escape"}, Special \cup Strs)
+  \cup A1({"plus", "minus", "times", "divided_by", "modulo", "at_least", "at_most"}, Decs \cup IntsPlain \cup NumStrsD, Decs \cup IntsPlain \cup NumStrsD \cup {IntV(0), Dec(0, 1)})
+  \cup A0({"abs", "ceil", "floor", "round"}, Decs \cup NumStrsD \cup Ints) \cup A1({"round"}, Decs \cup Ints, {IntV(0), IntV(1), IntV(2), IntV(-1)})
   \cup A1({"truncate"}, Strs, {IntV(0), IntV(2), IntV(3), IntV(10)})
   \cup A1({"map", "where", "reject", "find", "find_index", "has", "compact", "sort", "uniq", "sum"}, HashArrs, {Str("a"), Str("t")})
   \cup A2({"where", "reject", "find", "find_index", "has"}, HashArrs, {Str("a"), Str("t")}, {IntV(2), IntV(3), Str("u"), Nil, IntV(99)})
